@@ -7,7 +7,7 @@ import (
 )
 
 // The "layout" stream: valid files re-rendered with CRLF line ends, tabs between tokens,
-// multi-byte UTF-8 inside strings and as one very long line (optionally after a 40 KB comment),
+// multi-byte UTF-8 inside strings and as one very long line (optionally after a 16 KB comment),
 // then broken at a token in the last part of the file, so that the line / column arithmetic of the
 // scanner is exercised before the error (the reported position is checked against the
 // independent tokenizer and against the model).
@@ -19,7 +19,7 @@ func layoutVariant(r *rng, text []byte, variant int) []byte {
 	var b strings.Builder
 	if variant == 4 { // a long comment first: large columns, tabs and wide characters on the same line
 		b.WriteString("CM_ \"")
-		for b.Len() < 40000 {
+		for b.Len() < 16000 {
 			switch r.intn(6) {
 			case 0:
 				b.WriteString("\t")
